@@ -2697,7 +2697,12 @@ fn generate_constraints_expr(
             }
         }
         ExprKind::TaskBlock(block) => {
+            // a task body runs on its own: neither inside the enclosing loops nor inside the enclosing function
+            ctx.loop_stack.push(None);
+            let outer_rets = std::mem::take(&mut ctx.func_ret_stack);
             generate_constraints_expr(ctx, polyvar_scope, Mode::Syn, block);
+            ctx.func_ret_stack = outer_rets;
+            ctx.loop_stack.pop();
             constrain(
                 ctx,
                 &node_ty,
@@ -3628,6 +3633,8 @@ fn generate_constraints_func_def_helper(
     let ty_args = generate_constraints_func_args(ctx, &polyvar_scope, args);
 
     // body
+    // a function body is not inside the loops that enclose its definition
+    ctx.loop_stack.push(None);
     ctx.func_ret_stack.push(Prov::FuncOut(node.clone()));
     let ty_body = TypeVar::fresh(ctx, Prov::FuncOut(node.clone()));
     if let Some(out_annot) = out_annot {
@@ -3640,6 +3647,7 @@ fn generate_constraints_func_def_helper(
         generate_constraints_expr(ctx, &polyvar_scope, Mode::ana(&ty_body), body);
     }
     ctx.func_ret_stack.pop();
+    ctx.loop_stack.pop();
 
     TypeVar::make_func(ty_args, ty_body, Reason::Node(node.clone()))
 }
